@@ -85,3 +85,87 @@ struct einsum_case<T, Fastor::Index<I...>, Fastor::Index<J...>, Fastor::Tensor<T
 };
 #define VFC ,
 #define EINSUM_CASE(T, I, J, DA, DB) einsum_case<T, Fastor::Index<I>, Fastor::Index<J>, Fastor::Tensor<T,DA>, Fastor::Tensor<T,DB>>::run()
+
+#ifdef FASTOR_DONT_PERFORM_OP_MIN
+#define VF_OPMIN " opmin=0"
+#else
+#define VF_OPMIN ""
+#endif
+// ---- multi-operand einsum (C15) -------------------------------------------------------------
+struct OpDesc { std::vector<size_t> idx, dims; int win; };
+static std::vector<Poly> einstein_ref_n(const std::vector<OpDesc>& ops, std::vector<size_t>& resDims) {
+    std::vector<size_t> cat, cd;
+    for (auto& o : ops) { cat.insert(cat.end(), o.idx.begin(), o.idx.end()); cd.insert(cd.end(), o.dims.begin(), o.dims.end()); }
+    std::vector<size_t> names, ndim;
+    for (size_t k = 0; k < cat.size(); ++k) if (std::find(names.begin(), names.end(), cat[k]) == names.end()) { names.push_back(cat[k]); ndim.push_back(cd[k]); }
+    std::vector<size_t> freeNames; resDims.clear();
+    for (size_t k = 0; k < cat.size(); ++k) if (std::count(cat.begin(), cat.end(), cat[k]) == 1) { freeNames.push_back(cat[k]); resDims.push_back(cd[k]); }
+    size_t nout = 1; for (auto d : resDims) nout *= d;
+    std::vector<Poly> out(nout);
+    auto sO = row_strides(resDims);
+    std::vector<size_t> as(names.size(), 0);
+    auto val = [&](size_t name) { return as[std::find(names.begin(), names.end(), name) - names.begin()]; };
+    size_t total = 1; for (auto d : ndim) total *= d;
+    for (size_t it = 0; it < total; ++it) {
+        size_t r = it; for (int k = (int)names.size() - 1; k >= 0; --k) { as[k] = r % ndim[k]; r /= ndim[k]; }
+        Poly term = pconst(1);
+        for (auto& o : ops) { auto s = row_strides(o.dims); size_t off = 0; for (size_t k = 0; k < o.idx.size(); ++k) off += s[k] * val(o.idx[k]); term = pmul(term, ptok(mktok(o.win, off))); }
+        size_t io = 0; for (size_t k = 0; k < freeNames.size(); ++k) io += sO[k] * val(freeNames[k]);
+        out[io] = padd(out[io], term);
+    }
+    return out;
+}
+template<typename R> static void finish_n(const char* tag, const R& out, const std::vector<OpDesc>& ops, int variant) {
+    std::vector<size_t> resDims;
+    auto ref = einstein_ref_n(ops, resDims);
+    bool ok = (ref.size() == (size_t)out.size()); long bad = -1;
+    for (size_t k = 0; ok && k < ref.size(); ++k) if (ref[k] != pool.v[out.data()[k].h]) { ok = false; bad = k; }
+    std::string rd; for (size_t k = 0; k < resDims.size(); ++k) { if (k) rd += ","; rd += std::to_string(resDims[k]); } if (rd.empty()) rd = "-";
+    ok = ok && (rd == dims_of<R>::str());
+    std::printf(" | VAR=%d DIMS=%s VAL=%s ORACLE=%s", variant, dims_of<R>::str().c_str(), hex16(val_digest(out.data(), out.size())).c_str(), ok ? "ok" : "FAIL");
+    if (!ok) std::printf(" bad=%ld refdims=%s", bad, rd.c_str());
+    std::printf("\n");
+}
+template<typename T, typename I0, typename I1, typename I2, typename T0, typename T1, typename T2> struct einsum3_case;
+template<typename T, size_t... I0, size_t... I1, size_t... I2, size_t... D0, size_t... D1, size_t... D2>
+struct einsum3_case<T, Fastor::Index<I0...>, Fastor::Index<I1...>, Fastor::Index<I2...>, Fastor::Tensor<T,D0...>, Fastor::Tensor<T,D1...>, Fastor::Tensor<T,D2...>> {
+    static void run() { vf::guarded([]{ run_inner(); }); }
+    static void run_inner() {
+        using namespace Fastor;
+        std::printf("einsumn n=3" VF_OPMIN " I0=%s d0=%s I1=%s d1=%s I2=%s d2=%s", joinv<I0...>().c_str(), joinv<D0...>().c_str(), joinv<I1...>().c_str(), joinv<D1...>().c_str(),
+                    joinv<I2...>().c_str(), joinv<D2...>().c_str());
+        std::fflush(stdout);
+        arena.reset(); pool.reset();
+        auto* a = arena_tensor<Tensor<T,D0...>>(1); auto* b = arena_tensor<Tensor<T,D1...>>(2); auto* c = arena_tensor<Tensor<T,D2...>>(3);
+        auto out = einsum<Index<I0...>,Index<I1...>,Index<I2...>>(*a, *b, *c);
+#ifndef FASTOR_DONT_PERFORM_OP_MIN
+        int variant = triplet_flop_cost<Index<I0...>,Index<I1...>,Index<I2...>,Tensor<T,D0...>,Tensor<T,D1...>,Tensor<T,D2...>>::which_variant;
+#else
+        int variant = -1;
+#endif
+        finish_n("3", out, {{vecv<I0...>(), vecv<D0...>(), 1}, {vecv<I1...>(), vecv<D1...>(), 2}, {vecv<I2...>(), vecv<D2...>(), 3}}, variant);
+    }
+};
+template<typename T, typename I0, typename I1, typename I2, typename I3, typename T0, typename T1, typename T2, typename T3> struct einsum4_case;
+template<typename T, size_t... I0, size_t... I1, size_t... I2, size_t... I3, size_t... D0, size_t... D1, size_t... D2, size_t... D3>
+struct einsum4_case<T, Fastor::Index<I0...>, Fastor::Index<I1...>, Fastor::Index<I2...>, Fastor::Index<I3...>,
+                    Fastor::Tensor<T,D0...>, Fastor::Tensor<T,D1...>, Fastor::Tensor<T,D2...>, Fastor::Tensor<T,D3...>> {
+    static void run() { vf::guarded([]{ run_inner(); }); }
+    static void run_inner() {
+        using namespace Fastor;
+        std::printf("einsumn n=4" VF_OPMIN " I0=%s d0=%s I1=%s d1=%s I2=%s d2=%s I3=%s d3=%s", joinv<I0...>().c_str(), joinv<D0...>().c_str(), joinv<I1...>().c_str(), joinv<D1...>().c_str(),
+                    joinv<I2...>().c_str(), joinv<D2...>().c_str(), joinv<I3...>().c_str(), joinv<D3...>().c_str());
+        std::fflush(stdout);
+        arena.reset(); pool.reset();
+        auto* a = arena_tensor<Tensor<T,D0...>>(1); auto* b = arena_tensor<Tensor<T,D1...>>(2); auto* c = arena_tensor<Tensor<T,D2...>>(3); auto* d = arena_tensor<Tensor<T,D3...>>(4);
+        auto out = einsum<Index<I0...>,Index<I1...>,Index<I2...>,Index<I3...>>(*a, *b, *c, *d);
+#ifndef FASTOR_DONT_PERFORM_OP_MIN
+        int variant = quartet_flop_cost<Index<I0...>,Index<I1...>,Index<I2...>,Index<I3...>,Tensor<T,D0...>,Tensor<T,D1...>,Tensor<T,D2...>,Tensor<T,D3...>>::which_variant;
+#else
+        int variant = -1;
+#endif
+        finish_n("4", out, {{vecv<I0...>(), vecv<D0...>(), 1}, {vecv<I1...>(), vecv<D1...>(), 2}, {vecv<I2...>(), vecv<D2...>(), 3}, {vecv<I3...>(), vecv<D3...>(), 4}}, variant);
+    }
+};
+#define EINSUM3_CASE(T, I0, I1, I2, D0, D1, D2) einsum3_case<T, Fastor::Index<I0>, Fastor::Index<I1>, Fastor::Index<I2>, Fastor::Tensor<T,D0>, Fastor::Tensor<T,D1>, Fastor::Tensor<T,D2>>::run()
+#define EINSUM4_CASE(T, I0, I1, I2, I3, D0, D1, D2, D3) einsum4_case<T, Fastor::Index<I0>, Fastor::Index<I1>, Fastor::Index<I2>, Fastor::Index<I3>, Fastor::Tensor<T,D0>, Fastor::Tensor<T,D1>, Fastor::Tensor<T,D2>, Fastor::Tensor<T,D3>>::run()
